@@ -180,6 +180,8 @@ func local() []cat.Program {
 					`<b v-if="r">leak-r</b><b v-if="count">leak-count</b><b v-if="item">leak-item</b>` +
 					// top-level data keys of other programs (visible only if an engine keeps a caller's data)
 					`<p :data-num="num" :data-user="user.name">{{ num }}{{ flag }}{{ size }}{{ col }}{{ user.name }}{{ rows }}{{ markup }}{{ items }}{{ cls }}{{ sty }}{{ url }}{{ extra }}{{ rec.Name }}{{ grid }}{{ matrix }}</p><b v-if="num">leak-num</b>` +
+					// key names that other pages define in their FRONT-MATTER
+					`<p :data-h="heading" :data-f="fmonly">{{ heading }}{{ fmonly }}{{ n }}{{ box.k }}{{ nested.k }}{{ list }}{{ items }}{{ revn }}{{ kind }}{{ title }}</p><b v-if="heading">leak-heading</b><b v-if="fmonly">leak-fmonly</b><b v-if="nested">leak-nested</b>` +
 					`<template include="components/probe.vuego"><template v-slot:head="sp"><h6>{{ sp.label }}{{ h.label }}{{ r }}{{ title }}</h6></template><p>{{ r }}{{ count }}{{ role.name }}(slot {{ who }})</p></template>` +
 					`<template include="components/probe.vuego"></template>` + end,
 				"components/probe.vuego": `<div>{{ r }}{{ title }}{{ count }}{{ kind }}{{ label }}{{ user.name }}{{ role.name }}{{ v }}{{ data.b.c }}<slot name="head" :label="who">dh</slot><slot>{{ h.label }}{{ item }}ds</slot></div>`,
